@@ -1,1 +1,4 @@
-"""C08 -- bad input and bad grammars are reported as TatSu errors at valid positions."""
+"""C08 -- bad input and bad grammars are reported as TatSu errors at valid positions: proof part from the contracts tagged
+C08 (meta matchers never raise and accept only convertible text, token-skipping loops and repetitions terminate, line
+lookups are index safe); bounded API-level runs (every parse ends, with a value or a positioned FailedParse)."""
+from bounded.bC08 import run as bounded  # noqa: F401
